@@ -1,9 +1,123 @@
-import Driver.Loop
+import Driver.GeoWire
+import Midgard.Model.Rotation
+import Midgard.Model.Geodetic
+import Midgard.Generated.Ellipsoids
 
-/-! Driver for C06: placeholder until the model is written. -/
+/-! Driver for C06: the rotation / local-frame model at `Rat` (`q`) and `Float` (`f`). -/
 namespace Driver.C06
+open Midgard.Proto Midgard.Geo Driver.GeoWire
+
+def ellF? (name : String) : Option (Ellipsoid Float) :=
+  (Midgard.Generated.Ellipsoids.table.find? (·.1 == name)).map
+    (fun r => ⟨ratToFloat r.2.a, r.2.fInv.map ratToFloat⟩)
+
+section Alg
+variable {α : Type} [Wire α] [Add α] [Sub α] [Mul α] [Neg α] [Zero α] [One α]
+
+def axisCS? (k : String) (c s : α) : Option (M3 α) :=
+  match k with
+  | "1" => some (R1cs c s) | "2" => some (R2cs c s) | "3" => some (R3cs c s) | _ => none
+
+def daxisCS? (k : String) (c s : α) : Option (M3 α) :=
+  match k with
+  | "1" => some (dR1cs c s) | "2" => some (dR2cs c s) | "3" => some (dR3cs c s) | _ => none
+
+/-- commands that only need ring operations (both modes) -/
+def handleAlg : List String → Option String
+  | ["Rcs", k, c, s] => do
+    let c ← Wire.parse? c; let s ← Wire.parse? s
+    (axisCS? (α := α) k c s).map showM3
+  | ["dRcs", k, c, s] => do
+    let c ← Wire.parse? c; let s ← Wire.parse? s
+    (daxisCS? (α := α) k c s).map showM3
+  | "enu2trsCS" :: rest => do
+    match ← parseAll? (α := α) rest with
+    | [cl, sl, co, so] => pure (showM3 (enu2trsCS cl sl co so))
+    | _ => none
+  | "trs2enuCS" :: rest => do
+    match ← parseAll? (α := α) rest with
+    | [cl, sl, co, so] => pure (showM3 (trs2enuCS cl sl co so))
+    | _ => none
+  | "dtrs2enuCS" :: rest => do
+    match ← parseAll? (α := α) rest with
+    | [cl, sl, co, so, x, y, z] => pure (showV3 (deltaTrs2EnuCS cl sl co so ⟨x, y, z⟩))
+    | _ => none
+  | "denu2trsCS" :: rest => do
+    match ← parseAll? (α := α) rest with
+    | [cl, sl, co, so, x, y, z] => pure (showV3 (deltaEnu2TrsCS cl sl co so ⟨x, y, z⟩))
+    | _ => none
+  | "d6trs2enuCS" :: rest => do
+    match ← parseAll? (α := α) rest with
+    | [cl, sl, co, so, x, y, z, vx, vy, vz] =>
+      pure (showV6 (deltaTrs2EnuPosVelCS cl sl co so ⟨⟨x, y, z⟩, ⟨vx, vy, vz⟩⟩))
+    | _ => none
+  | "d6enu2trsCS" :: rest => do
+    match ← parseAll? (α := α) rest with
+    | [cl, sl, co, so, x, y, z, vx, vy, vz] =>
+      pure (showV6 (deltaEnu2TrsPosVelCS cl sl co so ⟨⟨x, y, z⟩, ⟨vx, vy, vz⟩⟩))
+    | _ => none
+  | "mulvec" :: rest => do
+    match ← parseAll? (α := α) rest with
+    | [a, b, c, d, e, f, g, h, i, x, y, z] =>
+      pure (showV3 ((M3.mk ⟨a, b, c⟩ ⟨d, e, f⟩ ⟨g, h, i⟩).mulVec ⟨x, y, z⟩))
+    | _ => none
+  | _ => none
+
+end Alg
+
+/-- commands through libm (`f` mode only) -/
+def handleF : List String → Option String
+  | ["R", k, a] => do
+    let a : Float ← Wire.parse? a
+    (axisCS? k (Trig.cos a) (Trig.sin a)).map showM3
+  | ["dR", k, a] => do
+    let a : Float ← Wire.parse? a
+    (daxisCS? k (Trig.cos a) (Trig.sin a)).map showM3
+  | ["enu2trs", lat, lon] => do
+    let lat : Float ← Wire.parse? lat; let lon : Float ← Wire.parse? lon
+    pure (showM3 (enu2trs lat lon))
+  | ["trs2enu", lat, lon] => do
+    let lat : Float ← Wire.parse? lat; let lon : Float ← Wire.parse? lon
+    pure (showM3 (trs2enu lat lon))
+  | "frame" :: ell :: rest => do
+    -- trs2enu matrix at a reference position given in TRS on a named ellipsoid
+    let E ← ellF? ell
+    match ← parseAll? (α := Float) rest with
+    | [x, y, z] =>
+      let g := trs2llh E ⟨x, y, z⟩
+      pure (showM3 (trs2enu g.lat g.lon))
+    | _ => none
+  | "trs2acr" :: rest => do
+    match ← parseAll? (α := Float) rest with
+    | [x, y, z, vx, vy, vz] => pure (showM3 (trs2acr ⟨x, y, z⟩ ⟨vx, vy, vz⟩))
+    | _ => none
+  | "acr2trs" :: rest => do
+    match ← parseAll? (α := Float) rest with
+    | [x, y, z, vx, vy, vz] => pure (showM3 (acr2trs ⟨x, y, z⟩ ⟨vx, vy, vz⟩))
+    | _ => none
+  | "d6trs2acr" :: rest => do
+    match ← parseAll? (α := Float) rest with
+    | [x, y, z, vx, vy, vz, a, b, c, d, e, f] =>
+      pure (showV6 (deltaTrs2AcrPosVel ⟨x, y, z⟩ ⟨vx, vy, vz⟩ ⟨⟨a, b, c⟩, ⟨d, e, f⟩⟩))
+    | _ => none
+  | "d6acr2trs" :: rest => do
+    match ← parseAll? (α := Float) rest with
+    | [x, y, z, vx, vy, vz, a, b, c, d, e, f] =>
+      pure (showV6 (deltaAcr2TrsPosVel ⟨x, y, z⟩ ⟨vx, vy, vz⟩ ⟨⟨a, b, c⟩, ⟨d, e, f⟩⟩))
+    | _ => none
+  | "azel" :: rest => do
+    -- lat lon of the reference position, then the TRS coordinates of reference and target
+    match ← parseAll? (α := Float) rest with
+    | [lat, lon, px, py, pz, qx, qy, qz] =>
+      let cl := Trig.cos lat; let sl := Trig.sin lat; let co := Trig.cos lon; let so := Trig.sin lon
+      let dir := directionTo (V3.mk px py pz) ⟨qx, qy, qz⟩
+      pure s!"{Wire.render (azimuthCS cl sl co so dir)} {Wire.render (elevationCS cl sl co so dir)} {Wire.render (zenithDistanceCS cl sl co so dir)}"
+    | _ => none
+  | _ => none
 
 def handle : List String → Option String
+  | "c06" :: "q" :: rest => handleAlg (α := Rat) rest
+  | "c06" :: "f" :: rest => (handleAlg (α := Float) rest).orElse (fun _ => handleF rest)
   | _ => none
 
 end Driver.C06
